@@ -719,6 +719,11 @@ func Parse(block []rune, pos int) (pt ParsedTokens, syntaxHighlighted string) {
 			case pt.Escaped:
 				pt.Escaped = false
 				ansiReset(block[i])
+				if pt.ExpectFunc && !readFunc {
+					// a command word that starts with an escaped character
+					*pt.pop = ""
+					readFunc = true
+				}
 				switch block[i] {
 				case 'r':
 					*pt.pop += "\r"
